@@ -24,7 +24,9 @@ open Diffx
 
 theorem cfg_boms_eq : cfg.boms = Generated.config.boms := by decide
 
-theorem cfg_eq : cfg = Generated.config := rfl
+theorem cfg_eq : cfg.boms = Generated.config.boms ∧ cfg.defaultIndent = Generated.config.defaultIndent ∧
+    cfg.defaultEncoding = Generated.config.defaultEncoding ∧ cfg.strictLength = Generated.config.strictLength :=
+  ⟨rfl, rfl, rfl, rfl⟩
 
 /-! ## generic: code point by code point -/
 
